@@ -416,6 +416,24 @@ def main(argv):
         for r in undecided:
             print("UNDECIDED:", r)
         return finish(2)
+    # ---- 2a. open findings that are identified by a replay file (`open: property=.. replay=<file under /verif> ..`) ------
+    # The failing input is re-run against the real code on every check: while it still fails, the finding is printed as
+    # KNOWN-FINDING (exit code unaffected); once it no longer fails nothing is printed (the entry should then become `fixed:`).
+    for k in load_known():
+        if k.get("property") != prop or not k.get("replay"):
+            continue
+        okb, errb = build_replay_crate()
+        if not okb:
+            undecided.append("replay crate does not build against this tree (open finding not re-run): " + errb[-300:])
+            break
+        rf = os.path.join(VERIF, k["replay"])
+        pr = subprocess.run([REPLAY_BIN, "run", rf], capture_output=True, text=True)
+        if pr.returncode == 1:
+            ident = k.get("class") or os.path.basename(rf)
+            if ident not in known_hits:
+                known_hits.append(ident)
+            print("KNOWN-FINDING: property=%s %s" % (prop, re.sub(r"^property=\S+\s*", "", k["line"][5:].strip())))
+
     # ---- 2b. bounded stand-ins for the parts of the property that are listed under not_covered -------------
     # (`standins` in vx/props.py).  They run on EVERY check, are labelled bounded in the evidence and never count as
     # obligations.  A replayable disagreement between the real code and the property is a VIOLATION (bounded);
